@@ -34,6 +34,7 @@ def install(w):
                        "fragment_variable_values": "opaque"}, returns="ref:ValueNode", ensures=[],
                assumed=True)
 
+    w.define("RequiredField", "f", "NonNull(f.type) and f.default is None and is_undefined(f.default_value)")
     w.define("IsVar", "n", "instance_of_ref(n, 'VariableNode')")
     w.define("IsNull", "n", "instance_of_ref(n, 'NullValueNode')")
     w.define("IsObj", "n", "instance_of_ref(n, 'ObjectValueNode')")
@@ -55,7 +56,15 @@ def install(w):
                ],
                # the only exceptions are those of a user supplied out_type (A5)
                raises=["Exception"], modifies=[], valid_schema=True,
-               ghost_calls=["literal_coerced"], props={"C15"})
+               ghost_calls=["literal_coerced"],
+               # the field loop of the input-object branch: a field without an entry makes the
+               # literal invalid exactly when the field is required (non-null and no default of
+               # either kind); otherwise its default, if any, is used
+               loops={2: {"return_post": [
+                              "implies(field_node is None and is_undefined(result), RequiredField(field))"],
+                          "step_post": [
+                              "implies(field_node is None, not RequiredField(field))"]}},
+               props={"C15", "C13"})
 
 
 def install_validate_literal(w):
@@ -97,7 +106,13 @@ def install_validate_literal(w):
                raises=["Exception"], ghost_modifies=["errs"], modifies=[], valid_schema=True,
                locals={"known_fields": ("list", "ref:ObjectFieldNode")},
                loop_all=["ghost('errs') >= old(ghost('errs'))"],
-               loops={3: {"invariant": [
+               loops={2: {"iter_post": [
+                   # a field without an entry is reported exactly when it is required
+                   "implies(field_node is None and RequiredField(field),"
+                   " ghost('errs') > at_iter_start(ghost('errs')))",
+                   "implies(field_node is None and not RequiredField(field),"
+                   " ghost('errs') == at_iter_start(ghost('errs')))"]},
+                      3: {"invariant": [
                    "ghost('errs') >= old(ghost('errs'))",
                    # every entry seen so far is known, or an unknown field has been reported
                    "ghost('errs') > old(ghost('errs')) or len(known_fields) == _i"]}},
